@@ -241,6 +241,32 @@ def run_overlay(P, rep, rule="R-OVERLAY"):
                     ok = True
         if not ok:
             probs.append("object `size` overlay is not a fallback (or_else / None-branch) of the real key lookup: a real `size` key could be shadowed")
+    # `size` of a scalar is its length in characters: the number handed to Value::scalar derives from Chars::count, never from a byte length
+    from origins import backward_slice
+    from origins import ClosureOrigins
+    n_chars = 0
+    bodies = [fn] + [g for g in P.fns.values() if g.kind == "closure" and g.id.startswith(fn.id + "::{closure")]
+    for g in bodies:
+        for bi, t in P.calls(g):
+            f = t.get("f")
+            if not f or not f["id"].endswith("Value::scalar") and not f["name"].endswith("Value::scalar") and "Value::scalar::<" not in f["name"]:
+                continue
+            al = op_local(t["args"][0]) if t.get("args") else None
+            if not al:
+                continue
+            _, cs = backward_slice(g, al[0])
+            for c in cs:
+                cf = c.get("f")
+                if not cf:
+                    continue
+                last = cf["id"].rsplit("::", 1)[1]
+                st_ = P.tstr(g.crate, cf["self_ty"]) if "self_ty" in cf else ""
+                if last == "count" and "str::iter::Chars" in st_:
+                    n_chars += 1
+                elif last == "len" and ("core::str::" in cf["name"] or "String" in cf["name"] or "KString" in cf["name"] or "kstring" in cf["name"] or "str>::len" in cf["name"]):
+                    probs.append("the computed `size` of a string is a byte length (`%s`), not a character count: it is wrong for every non-ASCII string" % cf["name"].split("<")[0])
+    if not n_chars:
+        probs.append("no computed `size` in augmented_get derives from chars().count(): the size of a string must be its length in characters")
     if probs:
         for p in probs:
             rep.viol(rule, "augmented_get", P.where(fn), p)
